@@ -278,6 +278,8 @@ var c06Data = func() *univ.Node {
 		"n", univ.Int(5),
 		"big", univ.IfaceSlice(univ.Int(0), univ.Int(1), univ.Int(2), univ.Int(3), univ.Int(4), univ.Int(5), univ.Int(6), univ.Int(7), univ.Int(8), univ.Int(9), univ.Int(10), univ.Int(11), univ.Int(12)),
 		"bigmix", univ.IfaceSlice(univ.Int(0), univ.Int(1), univ.Int(2), univ.Int(3), univ.Int(4), univ.Int(5), univ.Int(6), univ.Int(7), univ.Int(8), univ.Int(9), univ.IfaceSlice(), univ.Int(99)),
+		"pl", univ.Slice(univ.SliceOf(univ.PtrTo(univ.TInt)), univ.Ptr(univ.Int(7)), univ.NilPtr(univ.TInt), univ.Ptr(univ.Int(7))),
+		"npl", univ.Slice(univ.SliceOf(univ.PtrTo(univ.TInt)), univ.NilPtr(univ.TInt)),
 		"eim", univ.MapNode(univ.MapOf(univ.TInt, univ.TString), nil, nil),
 		"nbm", univ.NilOf(univ.MapOf(univ.TBool, univ.TInt)),
 		"eifm", univ.MapNode(univ.MapOf(univ.TIface, univ.TInt), nil, nil),
@@ -302,6 +304,8 @@ var c06Cases = []c06Case{
 	{`all holder as h { all h.byid as k, _ { k == 1 } }`, "E"}, {`any holder as h { any h.byid as k { k == 1 } }`, "E"},
 	{`any big as i, x { i == 10 and x == 10 }`, "T"}, {`any big as i, x { i == 2 and x == 10 }`, "F"}, {`all big as i, x { i != 10 or x == 10 }`, "T"}, {`all big as i, x { i != 12 or x == 12 }`, "T"},
 	{`any big as i, x { i == 11 and x == 2 }`, "F"}, {`any bigmix as x { x == 99 }`, "E"}, {`any bigmix as x { x == 9 }`, "T"}, {`all bigmix as x { x != 9 }`, "F"}, {`all bigmix as x { x != 99 }`, "E"},
+	{`any pl as i, _ { i == 1 }`, "T"}, {`all pl as x { x == 7 }`, "E"}, {`any npl as x { n == 5 }`, "T"}, {`all npl as i, _ { i == 0 }`, "T"}, {`any pl as x { x == 7 }`, "T"}, {`all pl as i, x { i != 1 }`, "F"},
+	{`any m as x, _ { any l as x { x == 3 } }`, "T"}, {`any l as x, _ { any m as _, x { x == 2 } }`, "T"}, {`any m as x { any s as x { x == "b" } }`, "T"}, {`any l as x, _ { any s as x { x == 0 } }`, "F"},
 	{`any l as v { l.0 == 1 }`, "T"}, {`all l as v { x == "top" }`, "T"}, {`any l as x { any l as y { x == 1 and y == 3 } }`, "T"},
 }
 
@@ -323,7 +327,7 @@ func c06Fixed(c *mon.Ctx, idx int, r interface{ Intn(int) int }) {
 func init() {
 	mon.Register(&mon.Prop{
 		ID: "C06", Level: "exploration",
-		Rule:        "per case a seeded document/representation and 4 datum-directed quantifiers (collections of every shape found in the datum: slices, arrays, []interface{}, typed and interface maps, length 0..4; all four binding modes; bodies that use the binding as root, as prefix, through a JSON Pointer, shadowed by an inner quantifier of the same name, shadowing a top-level field, or not at all; nesting<=3; non-iterable and absent targets). oracle (a) the reference semantics (set-valued for maps); (b) relational unrolling for lists: `any S as x {P(x)}` must equal the separately evaluated chain `P(S.0) or P(S.1) or ...` (all: and) built by syntactic substitution - same short-circuit, so index order, early exit and unreported later errors are all visible; (c) 64 fixed scoping/order/precondition cases (incl. 12- and 13-element lists: index order is numeric) with outcomes taken from the statement. non-trivial = quantifier evaluated with a determined outcome; distinct by (canonical expression, datum shape)",
+		Rule:        "per case a seeded document/representation and 4 datum-directed quantifiers (collections of every shape found in the datum: slices, arrays, []interface{}, typed and interface maps, length 0..4; all four binding modes; bodies that use the binding as root, as prefix, through a JSON Pointer, shadowed by an inner quantifier of the same name, shadowing a top-level field, or not at all; nesting<=3; non-iterable and absent targets). oracle (a) the reference semantics (set-valued for maps); (b) relational unrolling for lists: `any S as x {P(x)}` must equal the separately evaluated chain `P(S.0) or P(S.1) or ...` (all: and) built by syntactic substitution - same short-circuit, so index order, early exit and unreported later errors are all visible; (c) 74 fixed scoping/order/precondition cases (incl. 12- and 13-element lists: index order is numeric) with outcomes taken from the statement. non-trivial = quantifier evaluated with a determined outcome; distinct by (canonical expression, datum shape)",
 		Assumptions: []string{"unrolling is applied when the body does not use the index/key name (a position is not a path and cannot be substituted)", "map iteration order is not specified by this property: for maps only membership in the reference's allowed set is checked (determinism is C14)"},
 		NumCases:    func(tier string) int { return tierN(tier, 6000, 300000) },
 		Run:         c06Run,
